@@ -85,8 +85,7 @@ class AigerSectionsUnit(PMUnit):
         "from_boxed_dyn_read": "constructor: builds the DeferredReader / LineReader, then calls `new`",
         "new": "translated by the unit aigernew_ascii (Props/TieAigerNew)",
         "header": "accessor returning a reference to the field `header`",
-        "parse": "whole-file driver: pushes every item onto the vectors of `Aig<L>` (Vec, nested indexing, "
-                 "`into_owned_name`, `to_owned`); tied to `Aiger.parseAscii` by the correspondence runs",
+        "parse": "whole-file driver: translated by the unit aigerparse (Props/TieAigerParse `parse_tied`)",
     }
     fields = {f: dict(lean="left", ty="usize") for _, f in SECTIONS.values() if f}
     fields.update({
